@@ -720,7 +720,83 @@ def r_cli_case(rng):
         fmtout = rng.choice([None, None, None, None, rng.choice(wr), rng.choice(wr), rng.choice(wr).upper(), rng.choice(names).capitalize(),
                              rng.choice(['nonsense', '', 'genbank'])])
     return {'kind': 'cli', 'what': what, 'content': content, 'true': true, 'nobj': nobj, 'fmt': fmt, 'out': out, 'fmtout': fmtout,
-            'abs': rng.random() < 0.3}
+            'abs': rng.random() < 0.3, '_csig': _csig(content)}
+
+
+def _csig(content):
+    import hashlib
+    return hashlib.sha1(content.encode('latin-1')).hexdigest()[:12]
+
+
+def valid_case(c):
+    """Shrinking must not alter a file whose format / object count the case states."""
+    if c.get('kind') == 'cli':
+        return c.get('_csig') == _csig(c['content']) and (c['out'] is None or c['out'] != '')
+    return True
+
+
+# ----------------------------------------------------------------------------- sessions on one handle (state machine)
+
+SESS_KINDS = ['bytes', 'str', 'fileb', 'filet', 'ntf', 'spooled', 'gzip']
+SESS_BINARY = {'bytes': True, 'str': False, 'fileb': True, 'filet': False, 'ntf': True, 'spooled': True, 'gzip': True}
+EOF_OK = ('stockholm', 'fasta', 'gff')      # readers that return an empty collection at the end of the content
+
+
+def r_session(rng):
+    """A history of seek / read / readline / tell / detect / read-an-object calls on one file object."""
+    r = rng.random()
+    junk = rng.choice(['', '', '', 'JUNK\n', '>x\n', 'xx'])
+    if r < 0.5:
+        docs = [mk_basket(r_basket(rng, aligned=True)).tofmtstr('stockholm') for _ in range(rng.choice([1, 2, 2, 3]))]
+        what, fmt, sep = 'seqs', 'stockholm', None
+    elif r < 0.8:
+        w = r_writer_case(rng)
+        w.pop('kw', None)
+        docs, what, fmt, sep = [write_content(w)], w['what'], w['fmt'], None
+    else:
+        kind = rng.choice([k for k in SYNTH if k not in ('blast6low', 'blast10')])
+        what = 'seqs' if kind == 'genbank' and rng.random() < 0.5 else 'fts'
+        docs, fmt, sep = [synth(rng, kind)], SYNTH_FMT[kind], None
+    text = junk + ''.join(docs)
+    starts, p_ = [], len(junk)
+    for d_ in docs:
+        starts.append(p_)
+        p_ += len(d_)
+    n, pos, ops = len(text), 0, []
+
+    def seek(p):
+        nonlocal pos
+        ops.append({'op': 'seek', 'p': p})
+        pos = p
+    if junk and rng.random() < 0.8:
+        seek(len(junk))
+    for _ in range(rng.choice([3, 5, 8, 12])):
+        k = rng.random()
+        if k < 0.35:
+            o = rng.choice([{}, {}, {}, {'sep': ','}, {'sep': '\t'}])
+            ops.append(dict({'op': 'detect', 'what': rng.choice([what, what, 'seqs', 'fts']), 'sep': None}, **o))
+        elif k < 0.6:
+            if (pos not in starts and pos != n) or (pos == n and rng.random() < 0.75):
+                seek(rng.choice(starts))
+            given = rng.choice([None, None, fmt, fmt.upper()])
+            if pos == n and given is not None and fmt not in EOF_OK:
+                given = None
+            ops.append({'op': 'readobj', 'what': what, 'fmt': given, 'sep': sep})
+            if pos < n:
+                pos = (starts + [n])[starts.index(pos) + 1] if fmt == 'stockholm' else n
+        elif k < 0.75:
+            seek(rng.choice([0, rng.choice(starts), rng.randrange(n + 1), n, len(junk)]))
+        elif k < 0.87:
+            m = rng.choice([0, 1, 5, 50, None, None])
+            ops.append({'op': 'read', 'n': m})
+            pos = n if m is None else min(n, pos + m)
+        elif k < 0.95:
+            ops.append({'op': 'readline'})
+            i = text.find('\n', pos)
+            pos = n if i < 0 else i + 1
+        else:
+            ops.append({'op': 'tell'})
+    return {'kind': 'sess', 'text': text, 'hkind': rng.choice(SESS_KINDS), 'ops': ops}
 
 # ----------------------------------------------------------------------------- case generation
 
@@ -873,6 +949,9 @@ def gen_cases(rng, tier):
         junk = rng.choice(['', '', 'JUNK\n', '>x\n'])
         cases.append({'kind': 'plan', 'what': what, 'content': junk + content, 'offset': len(junk), 'h': rng.choice(['bytes', 'str']), 'sep': sep,
                       'fmt': rng.choice([None, None, fmt, fmt.upper() if fmt else None])})
+    # --- sessions: histories of calls on one handle of seven kinds
+    for _ in range(1500 if thorough else 200):
+        cases.append(r_session(rng))
     # --- the command-line converter on real files
     for _ in range(1500 if thorough else 170):
         cases.append(r_cli_case(rng))
@@ -1374,8 +1453,105 @@ def impl_cli(case):
         shutil.rmtree(d, ignore_errors=True)
 
 
+
+@contextlib.contextmanager
+def _open_kind(kind, text, d):
+    """One file object of the given kind over the text (closed and removed afterwards)."""
+    raw = text.encode('latin-1')
+    if kind == 'bytes':
+        yield io.BytesIO(raw)
+    elif kind == 'str':
+        yield io.StringIO(text, newline='')
+    elif kind == 'spooled':
+        with tempfile.SpooledTemporaryFile(max_size=50, dir=d) as f:      # rolls over to a real file beyond 50 bytes
+            f.write(raw)
+            f.seek(0)
+            yield f
+    elif kind == 'ntf':
+        with tempfile.NamedTemporaryFile(dir=d) as f:
+            f.write(raw)
+            f.flush()
+            f.seek(0)
+            yield f
+    else:
+        p = os.path.join(d, 'session.dat' + ('.gz' if kind == 'gzip' else ''))
+        with (gzip.open(p, 'wb') if kind == 'gzip' else open(p, 'wb')) as g:
+            g.write(raw)
+        f = gzip.open(p, 'rb') if kind == 'gzip' else open(p, 'rb') if kind == 'fileb' else open(p, 'r', newline='', encoding='latin-1')
+        try:
+            yield f
+        finally:
+            f.close()
+
+
+def _sess_run(case, ops, d):
+    import sugar
+    from sugar._io import detect
+    text = case['text']
+    txt = lambda x: x.decode('latin-1') if isinstance(x, bytes) else x
+    out = []
+    with _open_kind(case['hkind'], text, d) as f:
+        for st in ops:
+            op = st['op']
+            try:
+                if op == 'seek':
+                    a = f.seek(st['p'])
+                elif op == 'read':
+                    a = txt(f.read() if st['n'] is None else f.read(st['n']))
+                elif op == 'readline':
+                    a = txt(f.readline())
+                elif op == 'tell':
+                    a = f.tell()
+                elif op == 'detect':
+                    kw = {'sep': st['sep']} if st.get('sep') is not None else {}
+                    before = f.tell()
+                    fmt = detect(f, st['what'], **kw)
+                    a = [fmt, f.tell()]
+                    if f.tell() != before:
+                        a = 'FAIL: detect moved the handle from %d to %d' % (before, f.tell())
+                else:
+                    rd = sugar.read if st['what'] == 'seqs' else sugar.read_fts
+                    kw = {'sep': st['sep']} if st.get('sep') is not None else {}
+                    before = f.tell()
+                    try:
+                        objs = rd(f, st['fmt'], **kw)
+                    except OSError:
+                        a = {'e': 'OSError'}
+                        if f.tell() != before:
+                            a = 'FAIL: failed read moved the handle from %d to %d' % (before, f.tell())
+                    else:
+                        after = f.tell()
+                        used = sorted(set(o.meta._fmt for o in objs)) or [st['fmt'].lower() if st['fmt'] else '?']
+                        a = [used[0], after]
+                        ref = rd(io.BytesIO(text[before:after].encode('latin-1')), used[0], **kw)
+                        if len(used) != 1 or _cj(objs) != _cj(ref):
+                            a = 'FAIL: the objects read from the handle at %d differ from reading text[%d:%d] as %s' % (before, before, after, used)
+                if f.closed:
+                    a = 'FAIL: handle closed by %s' % op
+            except Exception as e:
+                a = {'e': type(e).__name__}
+            out.append(a)
+            if f.closed:
+                break
+        final = f.tell() if not f.closed else -1
+    return out, final
+
+
+def impl_sess(case):
+    d = tempfile.mkdtemp(prefix='C03-sess-', dir='/tmp')
+    try:
+        answers, final = _sess_run(case, case['ops'], d)
+        # the same history without its detect calls, on a fresh file object of the same kind
+        answers2, final2 = _sess_run(case, [st for st in case['ops'] if st['op'] != 'detect'], d)
+        return [answers, final, answers2, final2]
+    finally:
+        shutil.rmtree(d, ignore_errors=True)
+
+
 def impl(case):
     k = case['kind']
+    if k == 'sess':
+        return impl_sess(case)
     if k == 'cli':
         return impl_cli(case)
     if k == 'detect':
@@ -1474,6 +1650,24 @@ def model_term(case):
         if fmt == 'infernal':
             return 'out (run_C03_render_infernal %s %s %s)' % (coq_bs(case['l0']), coq_bs(case['l1']), coq_list([coq_bs(x) for x in case['lines']]))
         return 'out (run_C03_render_hits %s %s)' % ('x%02x' % ord(case['sep']), rows_t(case['rows']))
+    if k == 'sess':
+        ops = []
+        for st in case['ops']:
+            op = st['op']
+            o = '{| o_sep := %s; o_outfmt := None |}' % _optbyte(st.get('sep'))
+            if op == 'seek':
+                ops.append('(SSeek %s)' % coq_nat(st['p']))
+            elif op == 'read':
+                ops.append('(SRead %s)' % coq_opt(st['n'], coq_nat))
+            elif op == 'readline':
+                ops.append('SReadline')
+            elif op == 'tell':
+                ops.append('STell')
+            elif op == 'detect':
+                ops.append('(SDetect %s %s)' % ('Seqs' if st['what'] == 'seqs' else 'Fts', o))
+            else:
+                ops.append('(SReadObj %s %s %s)' % ('Seqs' if st['what'] == 'seqs' else 'Fts', o, coq_opt(st['fmt'], coq_bs)))
+        return 'out (run_C03_session %s %s %s)' % (coq_bool(SESS_BINARY[case['hkind']]), coq_bs(case['text']), coq_list(ops))
     if k == 'cli':
         return 'out (run_C03_cli %s %s %s %s %s %s)' % (coq_N(WHAT[case['what']]), coq_opt(case['true'], coq_bs), coq_nat(case['nobj']),
                                                        coq_opt(case['fmt'], coq_bs), coq_opt(case['out'], coq_bs), coq_opt(case['fmtout'], coq_bs))
@@ -1487,6 +1681,8 @@ def split_model(case, m):
 
 
 def agree(case, implval, modelval):
+    if case['kind'] == 'sess':
+        return isinstance(implval, list) and implval[:2] == modelval
     if case['kind'] == 'resolve':
         if implval == ['returned']:
             return False
@@ -1547,6 +1743,40 @@ def spec(case, got):
             if key in seen and seen[key] != r:
                 return 'step %d (%s) answers %r, the same call answered %r before' % (i, st['op'], r, seen[key])
             seen[key] = r
+        return None
+    if k == 'sess':
+        if isinstance(got, dict):
+            return 'session raised %s' % got['e']
+        answers, final, answers2, final2 = got
+        for st, a in zip(case['ops'], answers):
+            if isinstance(a, str) and a.startswith('FAIL'):
+                return '%s: %s' % (st['op'], a)
+        # deleting the detect calls changes no other answer and not the final position
+        others = [a for st, a in zip(case['ops'], answers) if st['op'] != 'detect']
+        if others != answers2 or final != final2:
+            return 'the history without its detect calls answers %r / ends at %r; with them %r / %r' % (answers2, final2, others, final)
+        # a handle stands where its reads and seeks put it: tell answers agree with a plain simulation of the io calls
+        pos, text = 0, case['text']
+        for st, a in zip(case['ops'], answers):
+            if st['op'] == 'seek':
+                pos = st['p']
+            elif st['op'] == 'read':
+                exp = text[pos:] if st['n'] is None else text[pos:pos + st['n']]
+                if a != exp:
+                    return 'read(%r) at %d returned %r' % (st['n'], pos, a)
+                pos = min(len(text), pos + len(exp)) if pos <= len(text) else pos
+            elif st['op'] == 'readline':
+                i = text.find('\n', pos)
+                exp = text[pos:] if i < 0 else text[pos:i + 1]
+                if a != exp:
+                    return 'readline at %d returned %r' % (pos, a)
+                pos += len(exp)
+            elif st['op'] == 'tell' and a != pos:
+                return 'tell answers %r, the handle should stand at %d' % (a, pos)
+            elif st['op'] == 'detect' and isinstance(a, list) and a[1] != pos:
+                return 'after detect the handle stands at %r, was at %d' % (a[1], pos)
+            elif st['op'] == 'readobj' and isinstance(a, list):
+                pos = a[1]
         return None
     if k == 'cli':
         if isinstance(got, str):
@@ -1625,6 +1855,8 @@ def nontrivial(case, got):
         return 'plan:%s:%s' % (case['fmt'], got[0] if isinstance(got, list) else 'exc')
     if k == 'render':
         return 'render:%s:%s' % (case['fmt'], 'long' if isinstance(got, str) and len(got) > 1000 else 'short')
+    if k == 'sess':
+        return 'sess:%s:%s' % (case['hkind'], ','.join(sorted(set(st['op'] for st in case['ops']))))
     if k == 'cli':
         return 'cli:%s:%s:%s:%s' % (case['what'], 'f' if case['fmt'] is not None else '-', 'fo' if case['fmtout'] is not None else '-',
                                     '/'.join(map(str, got[:1] + got[-2:])) if isinstance(got, list) else got.get('e') if isinstance(got, dict) else 'fail')
@@ -1652,6 +1884,8 @@ def histkey(case, got):
         keys.append('wresolve->%s' % (got[0] if isinstance(got, list) and got else 'exc'))
     elif k == 'kw':
         keys.append('entry=' + case['entry'])
+    elif k == 'sess':
+        keys += ['sess-kind=' + case['hkind']] + ['sess-op=' + st['op'] for st in case['ops']]
     elif k == 'cli':
         keys.append('cli->%s' % (got[0] if isinstance(got, list) else got.get('e') if isinstance(got, dict) else 'fail'))
     return keys
@@ -1867,7 +2101,7 @@ def _viol(case, implval, why):
     return {'case': case, 'impl': implval, 'model': None, 'wf': True, 'evaluated': False, 'noshrink': True, 'spec': why}
 
 
-NO_SHRINK_KEYS = ('w', 'origin', 'expect', 'h', 'what', 'kind', 'entry', 'ft', 'fmt', 'texts', 'handles', 'op', 't', 'kws', 'rkw', 'arch')
+NO_SHRINK_KEYS = ('hkind', 'ops', 'text', 'true', 'nobj', 'w', 'origin', 'expect', 'h', 'what', 'kind', 'entry', 'ft', 'fmt', 'texts', 'handles', 'op', 't', 'kws', 'rkw', 'arch')
 
 
 def extra_checks(rng, tier, cov):
@@ -1922,7 +2156,7 @@ def extra_checks(rng, tier, cov):
     cov['transport_note'] = 'transport independence is relational testing only (partial)'
 
 
-LEVEL_TEXT = ('Machine-checked Coq theorems (39, no axioms) over an executable model of sugar._io and of the command-line converter: detect() restores the position of any '
+LEVEL_TEXT = ('Machine-checked Coq theorems (45, no axioms) over an executable model of sugar._io and of the command-line converter: detect() restores the position of any '
               'handle and equals "first accepting sniffer of the regenerated FMTS_ALL chain" on the remaining content for text and '
               'binary handles; WHOLE-CHAIN detection soundness detect(render_d x) = d, with rejection lemmas for every earlier sniffer, '
               'for FASTA / Stockholm / GFF3 (writer models), SJSON / GenBank (first-line shapes), TSV / CSV of any length incl. beyond '
@@ -1939,7 +2173,14 @@ LEVEL_TEXT = ('Machine-checked Coq theorems (39, no axioms) over an executable m
               'its error rows KeyError / OSError / RuntimeError / IndexError (cli_decision_table, cli_fmtout_wins, cli_by_extension, '
               'cli_default_is_input_format, cli_fmt_is_output_format, cli_read_format, cli_errors, cli_case_insensitive), tied to '
               'sugar.scripts.cli on real files in a private directory (cli stream: which file is created, what goes to stdout, in which '
-              'format, error class). Model '
+              'format, error class); sessions on one handle as a state machine over (kind, content, offset): detect returns the identical '
+              'handle state (detect_keeps_handle), detect calls can be deleted from ANY history of seek / read / readline / tell / '
+              'read-an-object calls without changing another answer or the final state (session_detect_transparent), a detect after any '
+              'history answers the verdict on the rest of the content (session_detect_value), binary and text handles answer alike '
+              '(session_kind_irrelevant); a Stockholm read consumes exactly one alignment and never runs past the content, so the handle '
+              'stands at the next alignment (stockholm_read_consumes_one_alignment, stockholm_read_stays_inside); tied by the sess stream: '
+              'histories on BytesIO / StringIO / binary and text files / NamedTemporaryFile / SpooledTemporaryFile / GzipFile, every answer '
+              'and the final position compared with the model, the same history re-run without its detect calls. Model '
               'and code are tied on every run by differential testing of every modelled function (all reachable statements executed in '
               'the quick tier), renderer models against the real writers / readers, and histories of calls on shared state. Transport '
               'independence is relational testing only.')
